@@ -15,7 +15,7 @@ BASE_OPTS = {"mode": "cli", "module_visibility": "pub", "response_derives": "Deb
 
 def run(ck, prop, sj, progs, tier):
     workdir = os.path.join(vlib.WORK, "c01")
-    schema_path = progcheck.schema_file(sj, workdir)
+    schema_path = progcheck.schema_file(sj, workdir, fold_extensions=False)
     variants = [("off", dict(BASE_OPTS))]
     if prop == "C03":
         variants.append(("on", dict(BASE_OPTS, fragments_other_variant=True)))
@@ -64,9 +64,9 @@ def run(ck, prop, sj, progs, tier):
         feats[v["alt"]["a"]] = feats.get(v["alt"]["a"], 0) + 1
         ck.count()
         rep = {"query": p["text"], "doc": p["doc"], "vector": {"path": v["path"], "alt": v["alt"]["a"],
-               "param": v["alt"]["x"], "class": v["class"], "verdict": v["verdict"]},
+               "param": v["alt"]["x"], "class": v["class"], "verdict": v["verdict"], "after_type_flip": v.get("ctx", "")},
                "payload": pl, "other_variant": tag, "observed": r, "prog": {"doc": p["doc"], "vectors": [v]}}
-        name = "%s-%s-%s-%s" % (p["hash"], tag, v["path"].replace("/", "."), v["alt"]["a"] + v["alt"]["x"] + v["alt"]["val"]["t"] + v["alt"]["val"]["s"][:8])
+        name = "%s-%s-%s%s-%s" % (p["hash"], tag, v.get("ctx", "").replace("/", "."), v["path"].replace("/", "."), v["alt"]["a"] + v["alt"]["x"] + v["alt"]["val"]["t"] + v["alt"]["val"]["s"][:8])
         if r is None or "skipped" in r:
             continue
         if len(ck.cov["samples"]) < 3 and v["path"]:
@@ -128,8 +128,8 @@ def main_prop(prop, tier, replay=None, selftest=False):
         p["hash"] = vlib.stable_hash(p["doc"])
         run(ck, prop, sj, [p], tier)
         return ck.finish(exhaustive=False, rule="replay")
-    nsim, limit = (900, 260) if tier == "quick" else (4000, 2500)
-    sj, progs = progcheck.tlc_programs(ck, "MC_C01", "MC_C01_sim.cfg", nsim, limit=limit)
+    nsim, limit = (3000, 260) if tier == "quick" else (40000, 3000)
+    sj, progs = progcheck.tlc_program_sample(ck, nsim, limit)
     os.makedirs(os.path.join(vlib.WORK, "c01"), exist_ok=True)
     json.dump(sj, open(os.path.join(vlib.WORK, "c01", "schema.json"), "w"))
     if len(progs) < 40:
@@ -152,7 +152,8 @@ def main_prop(prop, tier, replay=None, selftest=False):
         "observation is serde_json::from_value / to_value inside compiled consumer crates (rustc + serde as installed)",
     ]
     return ck.finish(exhaustive=False,
-                     rule="programs from seeded TLC simulation of ProgGen; per program every single-position "
+                     rule="programs from seeded TLC simulation of ProgGen, covering sample over grammar productions "
+                          "(scope type x field / type condition / spread target, nesting kinds) plus seeded fill; per program every single-position "
                           "alternative of the execution-shape oracle; distinct = distinct (program, vector) pairs")
 
 
